@@ -124,9 +124,22 @@ def rule_cap_zero_sql(program, ctx):
     if var is None:
         ctx.bad(finding_func(P, rid, bq, "build_query no longer ends in `LIMIT {<variable>}`: stored results are unbounded", text="def build_query(...) :: LIMIT"))
     else:
-        for st in stores_of(bq, var):
+        # the LIMIT variable and every local it is copied from (`effective = limit if limit is not None else self.default_limit`)
+        chain, todo = [], [var]
+        while todo:
+            v_ = todo.pop()
+            if v_ in chain:
+                continue
+            chain.append(v_)
+            for st in stores_of(bq, v_):
+                if isinstance(st, ast.Assign) and isinstance(st.value, ast.Name):
+                    todo.append(st.value.id)
+        all_stores = [(v_, st) for v_ in chain for st in stores_of(bq, v_)]
+        for var, st in all_stores:
             v = st.value if isinstance(st, ast.Assign) else None
             if isinstance(v, ast.Constant) and v.value is None:
+                continue
+            if isinstance(v, ast.Name) and v.id in chain:
                 continue
             if dotted(v) == "self.default_limit":
                 ctx.ok(rid, st, f"{var} = self.default_limit")
@@ -334,6 +347,10 @@ def _toplevel_imports(program, m):
                 for a in st.names:
                     add(f"{base}.{a.name}")
             else:
+                if isinstance(st, ast.If) and dotted(st.test).split(".")[-1] == "TYPE_CHECKING":
+                    # never executed at run time (typing.TYPE_CHECKING is False): only the else branch counts
+                    walk(st.orelse)
+                    continue
                 for field in ("body", "orelse", "finalbody"):
                     sub = getattr(st, field, None)
                     if isinstance(sub, list):
